@@ -3,7 +3,7 @@
 From Coq Require Import List ZArith Bool.
 Import ListNotations.
 From SAV.base Require Import Tree.
-From SAV.orm Require Import Loaders.
+From SAV.orm Require Import Loaders LoadersKeys.
 Open Scope Z_scope.
 
 (* ---------- shape of an emitted statement (compared with the shape parsed from the compiled SQL) ---------- *)
@@ -151,6 +151,36 @@ Definition run_one (cmp_plan : bool) (u : uquery) (t0 : list row) (js : option s
   L [I (hash_tree (L (map graph_tree (load should_nest asg u t0 js path))));
      I (if cmp_plan then plan_hash should_nest (plan should_nest asg u t0 js path) else 0)].
 
+(* ---------- composite keys (family 77): selectin key-tuple extraction ---------- *)
+Definition as_krow (t : tree) : option krow := as_list_of as_optZ t.
+Definition as_natpair (t : tree) : option (nat * nat) := as_pair_of as_nat as_nat t.
+Definition krow_tree (r : krow) : list tree := map of_optZ r.
+Definition keys_tree (dir : Z) (pk : list nat) (res : list (krow * list krow)) : tree :=
+  if dir =? 0 then
+    L (map (fun pc => L (map (fun c => of_optZ (colval (fst pc) c)) pk ++ [L (map (fun c => of_optZ (colval c 0)) (snd pc))])) res)
+  else
+    L (map (fun cp => L [of_optZ (colval (fst cp) 0);
+                         L (map (fun p => L (map (fun c => of_optZ (colval p c)) pk)) (snd cp))]) res).
+Definition is_selectin_code (c : Z) : bool := (c =? 4) || (10 <=? c).
+(* input L [I 77; L pairs; L pk; L parents; L children; I dir; L [I strategy code ...]]: selectin through the key
+   tuples, every other strategy through the join condition (the composite-key models of those are the spec) *)
+Definition run_keys (t : tree) : tree :=
+  match t with
+  | L [I _; tp; tk; tpa; tch; I dir; tas] =>
+      match as_list_of as_natpair tp, as_list_of as_nat tk, as_list_of as_krow tpa, as_list_of as_krow tch,
+            as_list_of as_Z tas with
+      | Some pairs, Some pk, Some parents, Some children, Some codes =>
+          let spec := keys_tree dir pk (if dir =? 0 then spec_down pairs parents children else spec_up pairs parents children) in
+          let sel := keys_tree dir pk (if dir =? 0 then selectin_down (fk_cols pairs pk) pk parents children
+                                        else selectin_up (fk_cols pairs pk) pk parents children) in
+          let one := fun c => if is_selectin_code c then sel else spec in
+          L [L (map (fun c => L [I (hash_tree (one c)); I 0]) codes);
+             match codes with c :: _ => if tree_eqb (one c) spec then L [] else one c | [] => L [] end]
+      | _, _, _, _, _ => bad_input
+      end
+  | _ => bad_input
+  end.
+
 (* input  L [L rows0; L steps; uquery; L assignments; L [I cmp_plan]; walk (ignored: names the mapped relationships)]
      row = L [I id; up; dn; I v] (up / dn: I fk or L [] for NULL)      step = L [I kind(0 Down,1 Up); I order; I level; L rows]
      uquery = L [I pred; I k; distinct; group; I order; limit; offset; jstep]   (jstep: L [] = first step of the path, or a step)
@@ -159,6 +189,7 @@ Definition run_one (cmp_plan : bool) (u : uquery) (t0 : list row) (js : option s
    they are the query's meaning] *)
 Definition run_case (t : tree) : tree :=
   match t with
+  | L (I 77 :: _) => run_keys t
   | L [r0; ss; uq; asgs; L [cp]; _] =>
       match as_list_of as_row r0, as_list_of as_step ss, as_uquery uq,
             as_list_of (as_list_of as_strategy) asgs, as_bool cp with
